@@ -457,6 +457,97 @@ fn large_join_cases(r: &mut Rng, rep: &mut Report, n_cases: usize) {
     }
 }
 
+/// joins over tables of 99–300 rows (from 100 rows a table-local WHERE conjunct pushed into the
+/// scan goes through the columnar predicate-tree path) with a filter on each side written in every
+/// shape `column op literal` / `literal op column`, literals drawn from the stored values
+/// (boundary equalities): comma join, JOIN … ON + WHERE, derived table, LEFT JOIN; expected rows
+/// computed here from the definition
+fn medium_filtered_join_cases(r: &mut Rng, rep: &mut Report, n_cases: usize) {
+    for _ in 0..n_cases {
+        let na = *r.pick(&[99usize, 100, 101, 128, 200, 300]);
+        let nb = *r.pick(&[100usize, 129, 150, 257]);
+        let mut db = Db::new();
+        db.keep_log = false;
+        db.must("CREATE TABLE ma (aid INTEGER, v INTEGER)");
+        db.must("CREATE TABLE mb (bid INTEGER, k INTEGER, w INTEGER)");
+        let val = |r: &mut Rng| if r.chance(1, 15) { None } else { Some(r.range(0, 10)) };
+        let ra: Vec<(i64, Option<i64>)> = (0..na).map(|i| (i as i64, val(r))).collect();
+        let rb: Vec<(i64, Option<i64>, Option<i64>)> = (0..nb).map(|i| (i as i64, val(r), val(r))).collect();
+        let lit = |x: &Option<i64>| x.map(|v| v.to_string()).unwrap_or("NULL".into());
+        for chunk in ra.chunks(100) {
+            db.must(&format!("INSERT INTO ma VALUES {}", chunk.iter().map(|(i, v)| format!("({}, {})", i, lit(v))).collect::<Vec<_>>().join(", ")));
+        }
+        for chunk in rb.chunks(100) {
+            db.must(&format!("INSERT INTO mb VALUES {}", chunk.iter().map(|(i, k, w)| format!("({}, {}, {})", i, lit(k), lit(w))).collect::<Vec<_>>().join(", ")));
+        }
+        let ops = ["<", "<=", ">", ">=", "=", "<>"];
+        let cmp = |op: &str, a: i64, b: i64| match op { "<" => a < b, "<=" => a <= b, ">" => a > b, ">=" => a >= b, "=" => a == b, _ => a != b };
+        for _ in 0..12 {
+            // (qualified column references are not pushed into the scan by this engine: 2 in 3 unqualified)
+            let unq = r.chance(2, 3);
+            let (opb, lb, revb) = (*r.pick(&ops), r.range(0, 10), r.chance(1, 2));
+            let (opa, la, reva) = (*r.pick(&ops), r.range(0, na as i64), r.chance(1, 2));
+            let q = |t: &str, c: &str| if unq { c.to_string() } else { format!("{}.{}", t, c) };
+            let side = |col: String, op: &str, l: i64, rev: bool| if rev { format!("{} {} {}", l, op, col) } else { format!("{} {} {}", col, op, l) };
+            let fb = |t: &str| side(q(t, "w"), opb, lb, revb);
+            let fa = side(q("ma", "aid"), opa, la, reva);
+            let okb = |w: &Option<i64>| w.map(|w| if revb { cmp(opb, lb, w) } else { cmp(opb, w, lb) }).unwrap_or(false);
+            let oka = |id: i64| if reva { cmp(opa, la, id) } else { cmp(opa, id, la) };
+            let mut inner: Vec<String> = vec![];
+            let mut left: Vec<String> = vec![];
+            for (ai, v) in &ra {
+                let mut matched = false;
+                for (bi, k, w) in &rb {
+                    if v.is_some() && v == k {
+                        matched = true;
+                        if oka(*ai) {
+                            left.push(format!("(I{} I{})", ai, bi));
+                            if okb(w) {
+                                inner.push(format!("(I{} I{})", ai, bi));
+                            }
+                        }
+                    }
+                }
+                if !matched && oka(*ai) {
+                    left.push(format!("(I{} N)", ai));
+                }
+            }
+            inner.sort();
+            left.sort();
+            rep.case(&format!("medium filtered join {} {} {} {} {} {} {} {} {}", na, nb, opa, la, reva, opb, lb, revb, unq), !inner.is_empty());
+            rep.count(if revb { "medium_filter_literal_on_left" } else { "medium_filter_literal_on_right" });
+            let sel = format!("SELECT {}, {}", q("ma", "aid"), q("mb", "bid"));
+            let on = format!("{} = {}", q("ma", "v"), q("mb", "k"));
+            let members = vec![
+                ("comma_where", format!("{} FROM ma, mb WHERE {} AND {} AND {}", sel, on, fb("mb"), fa), &inner),
+                ("comma_where_filters_first", format!("{} FROM mb, ma WHERE {} AND {} AND {}", sel, fb("mb"), fa, on), &inner),
+                ("join_on_where", format!("{} FROM ma INNER JOIN mb ON {} WHERE {} AND {}", sel, on, fb("mb"), fa), &inner),
+                ("join_on_all", format!("{} FROM ma INNER JOIN mb ON {} AND {} AND {}", sel, on, fb("mb"), fa), &inner),
+                ("derived", format!("SELECT ma.aid, d.bid FROM ma INNER JOIN (SELECT * FROM mb) AS d ON ma.v = d.k WHERE {} AND {}", side("d.w".into(), opb, lb, revb), side("ma.aid".into(), opa, la, reva)), &inner),
+                ("left_join_where_preserved", format!("{} FROM ma LEFT JOIN mb ON {} WHERE {}", sel, on, fa), &left),
+            ];
+            for (name, sql, want) in members {
+                let o = db.query(&sql);
+                rep.count(&format!("medium_{}", name));
+                let got = o.rows().map(|rows| canon::bag_vec(rows));
+                if got.as_ref() != Some(want) {
+                    let diff = got.as_ref().map(|g| (g.len(), g.iter().filter(|x| !want.contains(x)).take(3).cloned().collect::<Vec<_>>(), want.iter().filter(|x| !g.contains(x)).take(3).cloned().collect::<Vec<_>>()));
+                    let mut script = String::from("CREATE TABLE ma (aid INTEGER, v INTEGER);\nCREATE TABLE mb (bid INTEGER, k INTEGER, w INTEGER);\n");
+                    for (i, v) in &ra {
+                        script.push_str(&format!("INSERT INTO ma VALUES ({}, {});\n", i, lit(v)));
+                    }
+                    for (i, k, w) in &rb {
+                        script.push_str(&format!("INSERT INTO mb VALUES ({}, {}, {});\n", i, lit(k), lit(w)));
+                    }
+                    rep.fail(FailKind::Oracle, None, &format!("filtered join over {} x {} rows, {}: result differs from the definitional join", na, nb, name),
+                        &format!("{}{};\n-- expected {} rows, got {:?} (rows, first unexpected, first missing) / {}", script, sql, want.len(), diff, o.brief().chars().take(200).collect::<String>()));
+                    break;
+                }
+            }
+        }
+    }
+}
+
 fn main() {
     engine::silence_panics();
     let args = Args::parse("C05");
@@ -475,6 +566,8 @@ fn main() {
         let mut r = rng.fork();
         let n_large = args.n(1, 8) as usize;
         large_join_cases(&mut r, &mut rep, n_large);
+        let n_medium = args.n(5, 60) as usize;
+        medium_filtered_join_cases(&mut r, &mut rep, n_medium);
     }
     let n = args.n(500, 15000);
     for i in 0..n {
